@@ -1,4 +1,5 @@
 import TypVerif.Gen.BimapShapes
+import TypVerif.Gen.MapsShapes
 /-
 C11, tie 4B — GOLDEN FUNCTION SHAPES (written by tools/mkshapes.py; do not edit by hand).  For every function of the source files this property's model mirrors,
 the extractor regenerates on every run: its calls, its stores through selectors / indices / pointers, its conditions and loop headers, its select cases and
@@ -24,5 +25,11 @@ theorem gen_shapes_bimap :
        ("Bimap.GetReverse", ["return key, ok"]),
        ("Bimap.Clear", ["call Clear", "call Clear"]),
        ("Bimap.Clone", ["return Bimap[K, V]{…}", "call Clone", "call Clone"])] := rfl
+
+/-- maps/maps.go, Clear and Clone - DEPENDENCIES of Bimap.Clear / Clone: 2 function(s) -/
+theorem gen_shapes_dep_maps :
+    Gen.MapsShapes.funcs.filter (fun f => (["Clear", "Clone"]).contains f.1) =
+      [("Clone", ["call make", "call len", "range m", "store newMap[k]", "return newMap"]),
+       ("Clear", ["range m", "call delete"])] := rfl
 
 end C11
